@@ -52,6 +52,9 @@ impl Response {
 
 pub type Handler = Box<dyn FnMut(&Request) -> Response + Send>;
 
+/// number of harness-handler panics (any non-zero value makes the run a machinery failure)
+pub static HANDLER_PANICS: std::sync::atomic::AtomicUsize = std::sync::atomic::AtomicUsize::new(0);
+
 pub struct Sim {
     pub port: u16,
     handler: Arc<Mutex<Option<Handler>>>,
@@ -156,7 +159,15 @@ fn serve(mut s: TcpStream, handler: &Arc<Mutex<Option<Handler>>>) {
     let resp = {
         let mut h = handler.lock().unwrap_or_else(|e| e.into_inner());
         match h.as_mut() {
-            Some(f) => f(&req),
+            // a panic in a harness handler must not take the server thread down with it
+            Some(f) => match std::panic::catch_unwind(std::panic::AssertUnwindSafe(|| f(&req))) {
+                Ok(r) => r,
+                Err(_) => {
+                    eprintln!("MACHINERY: simulator handler panicked on {:?}", req.raw());
+                    HANDLER_PANICS.fetch_add(1, Ordering::SeqCst);
+                    Response::new(500, b"handler panic".to_vec())
+                }
+            },
             None => Response::new(500, b"no handler".to_vec()),
         }
     };
